@@ -180,7 +180,17 @@ fn dispatch(p: &Params) -> Outcome {
         "C13" => framing::c13(p),
         "C07" => c07::run(p),
         "C08" => c08::run(p),
-        "C11" => c11::run(p),
+        "C11" => {
+            // field level through the hook (core) + message level through the public API
+            let mut o = c11::run(p);
+            let o2 = codec::run_c11_messages(p);
+            o.ctx.merge(o2.ctx);
+            o.rule = format!("{} | {}", o.rule, o2.rule);
+            if o.ctx.get("messages_stable_under_ulp_moves") == 0 && o.ctx.viol_by_sig.is_empty() {
+                o.ctx.inconclusive("message-level stage observed nothing".into());
+            }
+            o
+        }
         "C02" => c02::run(p),
         "C12" => c12::run(p),
         "C20" => c20::run(p),
@@ -204,6 +214,7 @@ fn dispatch_replay(p: &Params, v: &Value) -> Outcome {
         "C03" | "C04" | "C05" | "C06" | "C13" => framing::replay(p, v),
         "C07" => c07::replay(p, v),
         "C08" => c08::replay(p, v),
+        "C11" if v["kind"] == "ulp_message" => codec::replay_c11_message(v),
         "C11" => c11::replay(p, v),
         "C02" => c02::replay(p, v),
         "C12" => c12::replay(p, v),
